@@ -33,7 +33,9 @@ type input struct {
 }
 
 // schedule of generators over the case index (20-periodic so that every batch is mixed)
-var schedule = [20]byte{'a', 'b', 'c', 'b', 'a', 'd', 'b', 'c', 'e', 'b', 'a', 'b', 'c', 'b', 'a', 'd', 'b', 'c', 'e', 'a'}
+// (a) and (d) inputs cost a few milliseconds, (b) (c) (e) up to a second: the cheap ones get
+// more slots so that the systematic part of (a) (~1250 cases) fits into the quick tier.
+var schedule = [20]byte{'a', 'b', 'a', 'c', 'a', 'd', 'b', 'a', 'e', 'a', 'b', 'a', 'c', 'a', 'd', 'b', 'a', 'c', 'a', 'b'}
 
 var perPeriod = func() map[byte]int {
 	m := map[byte]int{}
